@@ -261,3 +261,29 @@ class is_unknown:
     ensures = lambda self, result: sym.wrap_bool(tm.Iff(B(result), B(is_unknown_rec(self))))
     result = ty.Bool
     modifies = []
+
+
+# ---------------------------------------------------------------- the stored form (cattrs: outside the VC generator)
+
+from vc.report import structural  # noqa: E402
+
+
+@structural("C13/scan/serializers", props=["C13"],
+            note="FileHash / StepHash .to_json and .from_json are json.dumps(json_converter.unstructure(self)) and "
+                 "json_converter.structure(json.loads(value), cls) -- functions of all fields of this very object: no "
+                 "decorator other than classmethod (a value-keyed cache would answer with the form of an object that "
+                 "only compares equal).  What cattrs does with the fields is the bounded stand-in json_roundtrip.")
+def serializers():
+    import ast
+
+    out = []
+    for cls in ("FileHash", "StepHash"):
+        for meth, want in (("to_json", "json.dumps(json_converter.unstructure(self))"),
+                           ("from_json", "json_converter.structure(json.loads(value), cls)")):
+            _, node = extract.find_def("stepup/core/hash.py", f"{cls}.{meth}")
+            decos = [ast.unparse(d) for d in node.decorator_list]
+            out.append((f"scan/serializers/{cls}.{meth}.undecorated", set(decos) <= {"classmethod"}, f"decorators: {decos}"))
+            last = node.body[-1]
+            got = ast.unparse(last.value) if isinstance(last, ast.Return) and last.value is not None else None
+            out.append((f"scan/serializers/{cls}.{meth}.whole_object", got == want, f"final return: {got}"))
+    return out
